@@ -101,6 +101,7 @@ pub fn c02_c03_c11(ctx: &mut Ctx, which: &str) {
                     }
                 }
                 let fin = o.finished;
+                if !o.labels_ok { ok_path = false; notes.push_str("[a discovery path labels a step with an action that does not lead to the next state]"); }
                 match which {
                     "c02" => ctx.check(&case, &format!("c02-{:?}-verdict", st).to_lowercase(), &["CB.check_block.loop1.invariant.discovery-always", "CB.check_block.loop1.invariant.discovery-sometimes"], fin && ok_verdict, format!("finished={} {}", fin, notes), "a discovery iff a reachable witness exists".into()),
                     "c03" => ctx.check(&case, &format!("c03-{:?}-witness-path", st).to_lowercase(), &["CB.check_block.loop1.invariant.ebits-exact", "CB.reconstruct_path.ensures.real-path"], ok_path, notes.clone(), "every discovery is a genuine witness path".into()),
@@ -298,11 +299,7 @@ pub fn wide_frontier(ctx: &mut Ctx, which: &str) {
                 let c = b.spawn_on_demand();
                 c.run_to_completion();
                 let t0 = std::time::Instant::now();
-                let mut last = usize::MAX; let mut stable = 0;
-                while t0.elapsed() < std::time::Duration::from_secs(8) && !c.is_done() {
-                    let cur = c.state_count();
-                    if cur == last { stable += 1; } else { stable = 0; last = cur; }
-                    if stable > 200 { break; }
+                while t0.elapsed() < std::time::Duration::from_secs(60) && !c.is_done() {
                     std::thread::sleep(std::time::Duration::from_millis(5));
                 }
                 (c.unique_state_count(), c.state_count())
